@@ -88,6 +88,7 @@ var vpShapes = []vpShape{
 	{in: []uint64{1, 2}, out: []uint64{1, 2, 3}, learnersNext: []uint64{3}, autoLeave: true}, // 7 joint with staged demotion
 	{in: []uint64{2}},                                                              // 8 singleton other, self removed
 	{in: []uint64{1, 2}},                                                           // 9 two voters
+	{in: []uint64{1, 0x5000000000000000, 0xA000000000000000, 0xF000000000000000}},  // 10 ids spread over the uint64 range
 }
 
 func vpSet(ids []uint64) map[uint64]struct{} {
@@ -112,9 +113,17 @@ func vpContains(ids []uint64, id uint64) bool {
 
 func (s vpShape) members() []uint64 {
 	var out []uint64
-	for id := uint64(1); id <= 4; id++ {
-		if vpContains(s.in, id) || vpContains(s.out, id) || vpContains(s.learners, id) || vpContains(s.learnersNext, id) {
-			out = append(out, id)
+	for _, l := range [][]uint64{s.in, s.out, s.learners, s.learnersNext} {
+		for _, id := range l {
+			if !vpContains(out, id) {
+				out = append(out, id)
+			}
+		}
+	}
+	// ascending (insertion sort; ids are concrete)
+	for i := 1; i < len(out); i++ {
+		for j := i; j > 0 && out[j-1] > out[j]; j-- {
+			out[j-1], out[j] = out[j], out[j-1]
 		}
 	}
 	return out
@@ -567,7 +576,7 @@ func vpInvLog(k *vpConds, l *raftLog, term uint64) {
 		// compaction never passes the applied index, snapshot pending or not
 		k.add(l.applied >= s)
 		if ms.snapshot != nil {
-			k.add(ms.snapshot.GetMetadata().GetIndex() <= l.applied)
+			k.add(ms.snapshot.GetMetadata().GetIndex() <= l.committed)
 			k.add(ms.snapshot.GetMetadata().GetIndex() >= s)
 		}
 		prevU = st
@@ -586,9 +595,12 @@ func vpInvLog(k *vpConds, l *raftLog, term uint64) {
 		k.add(l.applied+1 >= s+1)
 		// what has been applied has been persisted first (Ready contract)
 		k.add(l.applied < u.offset)
-		// storage contract: snapshots are taken at applied indexes
+		// storage contract: snapshots are taken at applied, hence committed and
+		// persisted, indexes (after a restart with Config.Applied unset the
+		// applied cursor itself may be below the snapshot index)
 		if ms.snapshot != nil {
-			k.add(ms.snapshot.GetMetadata().GetIndex() <= l.applied)
+			k.add(ms.snapshot.GetMetadata().GetIndex() <= l.committed)
+			k.add(ms.snapshot.GetMetadata().GetIndex() < u.offset)
 			k.add(ms.snapshot.GetMetadata().GetIndex() >= s)
 		}
 	}
